@@ -490,3 +490,48 @@ def rule_counter(ctx):
     # the one place that lends a copy on the pinned tree; seeded/C03-g keeps the rule alive in bin/selftest)
     res.inst("counter copies lent: %d" % n, None, None, "ok", nontrivial=False)
     return res
+
+
+def rule_eta(ctx):
+    """R-ETA: a binder is dropped only after asking whether what remains mentions it"""
+    fx = ctx.fx
+    res = RuleResult("R-ETA", "a function of fun2core / core_lang / core2axcut that is handed a mu- or mu~-abstraction (or a term that may be one) and "
+                     "returns a part of the abstraction's body - the producer of `mu a.<p | a>`, say - has dropped the binder; that is an "
+                     "eta-contraction, valid only if the bound (co)variable does not occur in the part that is kept. Such a function must ask "
+                     "for the free variables of what it keeps (typed_free_vars / free_vars); without the test the variable survives unbound "
+                     "in every later stage")
+    MU = "scc_core_lang::syntax::terms::mu::Mu"
+    TERMS = {MU, "scc_core_lang::syntax::terms::Term", "scc_core_lang::syntax::terms::FsTerm"}
+    PASS = {"clone", "deref", "as_ref", "borrow", "unwrap_or_clone", "into", "from", "to_owned"}
+    n = 0
+    for k, f in sorted(fx.fns.items()):
+        if f["crate"] not in ("scc_core_lang", "core2axcut", "fun2core") or "{promoted" in k:
+            continue
+        ps = [i for i in range(1, f["argc"] + 1) if (f["locals"][i].get("adt") in TERMS or f["locals"][i].get("core") in TERMS)]
+        if not ps:
+            continue
+        n += 1
+        fn = Fn(f)
+        flow = Flow(fn, extra_pass=lambda t: t.get("callee_name") in PASS)
+        hits = set()
+        for path in ((), ("0",), ("1",)):
+            for o in flow.origins(0, path):
+                if o[0] == "arg" and o[1] in ps and "statement" in o[2] and o[2].index("statement") < len(o[2]) - 1:
+                    hits.add((o[1], tuple(o[2])))
+        if not hits:
+            continue
+        bodies = [f] + [g for gk, g in fx.fns.items() if (g.get("parent") or "").startswith(k) and "{promoted" not in gk]
+        asks = any(b["term"]["k"] == "call" and b["term"].get("callee_name") in ("typed_free_vars", "free_vars") for g in bodies for b in g["blocks"])
+        ikey = "%s:binder-dropped" % k
+        if asks:
+            res.inst(ikey, fn.file, fn.line, "ok", "asks for the free variables of what it keeps")
+        else:
+            p_, path_ = sorted(hits)[0]
+            res.inst(ikey, fn.file, fn.line, "violation")
+            res.violate(ikey, "%s returns the part `%s` of the body of an abstraction it was given and drops the abstraction's binder without asking "
+                        "whether that part mentions the bound (co)variable: when it does, the variable is unbound from here on" %
+                        (k.split("::")[-1], ".".join(path_)), fn.file, fn.line)
+    res.inst("functions handed an abstraction or a term: %d" % n, None, None, "ok", nontrivial=False)
+    if n < 20:
+        raise AnalysisError("R-ETA: only %d functions with a term parameter found" % n)
+    return res
